@@ -102,31 +102,36 @@ def globals_aliases(func):
 
 
 def check_assignment(chk):
-    mod, func, loop, key_var, sections, chain = statement_dispatch(chk.repo, 'C04.W')
-    stmts = sections.get('expr')
-    if stmts is None:
-        raise Unrecognised('C04.W', "no 'expr' branch in the statement dispatch", mod.rel)
-    params = [a.arg for a in func.args.args]
-    locals_var = params[2] if len(params) > 2 else 'locals_'
-    galias = globals_aliases(func)
-    name_var = None
-    for s in stmts:
-        if isinstance(s, ast.Assign) and isinstance(s.targets[0], ast.Name) and "'name'" in norm(s.value) and "['expr']" in norm(s.value):
-            name_var = s.targets[0].id
-    if name_var is None:
-        raise Unrecognised('C04.W', 'the assignment target name variable was not found', mod.rel)
-    want = {'none': 'globals', 'empty': 'locals', 'nonempty': 'locals'}
+    """C04.W by abstract execution: an assignment statement executed at top level, in a function whose locals are still empty,
+    and in a function with locals"""
+    from .. import stepsim
+    from ..absint import Sym, ADict, RaiseSig
+    mod, func, loop = helper_loop(chk.repo, 'C04.W')
+    it = stepsim.StepInterp(chk.repo, mod, 'C04.W')
+    it.schedule = [True]
     desc = {'none': 'top level (locals_ is None)', 'empty': 'inside a function whose locals are still empty', 'nonempty': 'inside a function with locals'}
     for case in ('none', 'empty', 'nonempty'):
-        got = target_for(stmts, name_var, locals_var, case, galias)
-        if got is None:
-            raise Unrecognised('C04.W', f'assignment store not understood for case {case}', mod.rel)
-        if got == want[case]:
-            chk.ok('C04.W', f'assignment, {desc[case]} -> stores into {got}')
+        model = [{'expr': {'name': 'x', 'expr': Sym('e', 0)}}, {'expr': {'name': 'y', 'expr': Sym('e', 1)}}]
+        locals_ = it.prepare('global' if case == 'none' else 'function', 50, {'y': Sym('global-y')})
+        if case == 'nonempty':
+            locals_.d['p'] = Sym('param')
+        try:
+            it.call_function(func, [stepsim.build(model), it.options, locals_], func)
+        except RaiseSig as sig:
+            chk.bad('C04.W', mod, func.name, f'assignment {desc[case]}: raises {sig.cls}', f'an assignment statement executed {desc[case]} raises {sig.cls}{sig.args_!r}')
+            continue
+        g = it.globals_obj.d
+        if case == 'none':
+            good = isinstance(g.get('x'), Sym) and g['x'].kind == 'value' and isinstance(g.get('y'), Sym) and g['y'].kind == 'value'
+            where = 'the globals object'
         else:
-            chk.bad('C04.W', mod, func.name, f'assignment {desc[case]} -> {got}',
-                    f'an assignment executed {desc[case]} must write the {want[case]}; it writes the {got} '
-                    f'(a function without parameters starts with an empty locals dict, which is falsy)', node=stmts[0])
+            good = 'x' not in g and g.get('y') == Sym('global-y') and isinstance(locals_.d.get('x'), Sym) and isinstance(locals_.d.get('y'), Sym) and locals_.d['y'].kind == 'value'
+            where = "the call's locals (also when a global of the same name exists)"
+        if good:
+            chk.ok('C04.W', f'assignment {desc[case]} stores into {where}')
+        else:
+            chk.bad('C04.W', mod, func.name, f'assignment {desc[case]}: globals={stepsim.reify(it.globals_obj)!r} locals={stepsim.reify(locals_) if locals_ is not None else None!r}',
+                    f'an assignment executed {desc[case]} must store into {where}; it leaves globals={stepsim.reify(it.globals_obj)!r}, locals={stepsim.reify(locals_) if locals_ is not None else None!r}')
 
 
 def check_global_stores(chk):
@@ -158,31 +163,13 @@ def check_global_stores(chk):
                 chk.ok('C04.W', where + ' (top-level assignment / function statement)')
             else:
                 chk.bad('C04.W', mod, fname, norm(node)[:120], 'an unexpected write into the globals object (only library injection, top-level assignments and function statements write globals)', node=node)
-    if n < 3:
+    if n < 2:
         raise Unrecognised('C04.W', f'only {n} stores into the globals object found', mod.rel)
 
 
 def check_frames(chk):
     mod = chk.repo.module('runtime')
-    sf = mod.func('_script_function', 'C04.F')
-    calls = [n for n in walk_no_nested(sf) if isinstance(n, ast.Call) and call_name(n) == '_execute_script_helper']
-    if len(calls) != 1 or len(calls[0].args) < 3:
-        raise Unrecognised('C04.F', '_script_function does not call _execute_script_helper(statements, options, locals) once', mod.rel)
-    call = calls[0]
-    loc = call.args[2]
-    defs = [n for n in walk_no_nested(sf) if isinstance(n, ast.Assign) and len(n.targets) == 1 and norm(n.targets[0]) == norm(loc)]
-    fresh = len(defs) == 1 and (isinstance(defs[0].value, ast.Dict) and not defs[0].value.keys or (isinstance(defs[0].value, ast.Call) and call_name(defs[0].value) == 'dict' and not defs[0].value.args)) \
-        and defs[0] in sf.body
-    if isinstance(loc, ast.Name) and fresh:
-        chk.ok('C04.F', f'_script_function: locals frame {loc.id} is a dict created inside the call and passed to a new invocation')
-    else:
-        chk.bad('C04.F', mod, '_script_function', norm(call), 'a script function call must run with a locals dict created for that call (not a default argument, module state or the model)', node=call)
-    if norm(call.args[0]) != f"{sf.args.args[0].arg}['statements']":
-        chk.bad('C04.F', mod, '_script_function', norm(call.args[0]), "a script function must execute its own statement list (function['statements'])", node=call)
-    elif norm(call.args[1]) != sf.args.args[2].arg:
-        chk.bad('C04.F', mod, '_script_function', norm(call.args[1]), 'a script function must run under the options object passed by its caller', node=call)
-    else:
-        chk.ok('C04.F', "_script_function runs function['statements'] under the caller's options")
+    check_calls_sim(chk)
     for fname in ('execute_script', '_execute_script_helper'):
         f = mod.func(fname, 'C04.F')
         for n in walk_no_nested(f):
@@ -271,146 +258,151 @@ def check_injection(chk):
 
 
 def check_function_statement(chk):
-    mod, func, loop, key_var, sections, chain = statement_dispatch(chk.repo, 'C04.R')
-    stmts = sections.get('function')
-    if stmts is None:
-        raise Unrecognised('C04.R', "no 'function' branch in the statement dispatch", mod.rel)
-    galias = globals_aliases(func)
-    stores = [s for s in stmts if isinstance(s, ast.Assign) and isinstance(s.targets[0], ast.Subscript)]
-    if len(stmts) == 1 and len(stores) == 1:
-        s = stores[0]
-        base = norm(s.targets[0].value)
-        key = norm(s.targets[0].slice)
-        val = s.value
-        stmt_var = key.split("['function']")[0] if "['function']" in key else None
-        good_val = isinstance(val, ast.Call) and (call_name(val) or '').endswith('partial') and len(val.args) == 2 and norm(val.args[0]) == '_script_function' \
-            and norm(val.args[1]) == f"{stmt_var}['function']"
-        if base in galias and key == f"{stmt_var}['function']['name']" and good_val:
-            chk.ok('C04.R', f'function statement: unconditional {norm(s)[:90]}')
-        else:
-            chk.bad('C04.R', mod, func.name, norm(s)[:140],
-                    'a function statement must bind, in the globals object and under the function\'s own name, a callable closed over that statement\'s function object', node=s)
-    else:
-        cond = [s for s in stmts if isinstance(s, ast.If)]
-        chk.bad('C04.R', mod, func.name, norm(stmts[0])[:120] if stmts else 'empty',
-                'the function statement must store unconditionally (a script-defined function replaces a library function or earlier definition of the same name)'
-                if cond else 'the function statement branch is not a single store into globals', node=stmts[0] if stmts else None)
+    check_calls_sim(chk)
 
 
 def check_binding(chk):
-    mod = chk.repo.module('runtime')
-    sf = mod.func('_script_function', 'C04.B')
-    params = [a.arg for a in sf.args.args]
-    fn_var, args_var = params[0], params[1]
-    # zip idiom
-    for n in walk_no_nested(sf):
-        if isinstance(n, ast.Call) and call_name(n) == 'zip' and any(norm(a) == args_var for a in n.args):
-            chk.bad('C04.B', mod, '_script_function', norm(getattr(n, '_parent', n))[:120],
-                    'zip() binds only as many parameters as there are arguments: missing parameters are left unbound (and resolve to a global of the same name) '
-                    'instead of being null', node=n)
-            return
-    loops = [n for n in walk_no_nested(sf) if isinstance(n, ast.For)]
-    if len(loops) != 1:
-        raise Unrecognised('C04.B', '_script_function: expected one loop over the declared parameters', mod.rel)
-    loop = loops[0]
-    defs = {}
-    for n in walk_no_nested(sf):
-        if isinstance(n, ast.Assign) and len(n.targets) == 1 and isinstance(n.targets[0], ast.Name):
-            defs.setdefault(n.targets[0].id, []).append(n.value)
-    ix = loop.target.id if isinstance(loop.target, ast.Name) else None
-    it = norm(loop.iter)
-    names_var = next((k for k, v in defs.items() if any(norm(x) in (f"{fn_var}.get('args')", f"{fn_var}['args']") for x in v)), None)
-    nlen = next((k for k, v in defs.items() if any(norm(x) == f'len({names_var})' for x in v)), None)
-    alen = next((k for k, v in defs.items() if any(norm(x) == f'len({args_var})' for x in v)), None)
-    if it not in (f'range({nlen})', f'range(len({names_var}))') or ix is None:
-        raise Unrecognised('C04.B', f'parameter loop does not range over the declared parameters: {it}', mod.rel)
-    chk.ok('C04.B', 'binding loop ranges over the declared parameters only (surplus arguments ignored)')
-    # the "..." index
-    last_var = None
-    for k, v in defs.items():
-        if any('lastArgArray' in norm(x) for x in v):
-            last_var = k
-    if last_var is None:
-        raise Unrecognised('C04.B', 'definition of the "..." parameter index not found', mod.rel)
-    ldef = defs[last_var][0]
-    lgood = None
-    if isinstance(ldef, ast.IfExp):
-        t = norm(ldef.test)
-        t_ok = t in (f"{fn_var}.get('lastArgArray')", f"{fn_var}.get('lastArgArray', False)", f"{fn_var}.get('lastArgArray', None)",
-                     f"'lastArgArray' in {fn_var} and {fn_var}['lastArgArray']")
-        b_ok = norm(ldef.body) in (f'{nlen} - 1', f'len({names_var}) - 1')
-        o_ok = isinstance(ldef.orelse, ast.Constant) and ldef.orelse.value is None or norm(ldef.orelse) == '-1'
-        lgood = t_ok and b_ok and o_ok
-    elif isinstance(ldef, ast.BoolOp):
-        lgood = False
-    if lgood:
-        chk.ok('C04.B', f'"..." index = {norm(ldef)} (defined only when lastArgArray is truthy)')
-    elif lgood is False:
-        chk.bad('C04.B', mod, '_script_function', norm(ldef),
-                'the index of the "..." parameter must be n-1 when lastArgArray is truthy and a non-index (None) otherwise; with `x and (n - 1)` an explicit '
-                'lastArgArray=False yields False, which equals index 0, so the first parameter collects all arguments', node=ldef)
-    else:
-        raise Unrecognised('C04.B', f'"..." index definition not understood: {norm(ldef)}', mod.rel)
+    """decided together with C04.R / C04.F by check_calls_sim"""
+    return None
 
-    def cond(e, present, last):
-        t = norm(e)
-        if t == f'{ix} < {alen}' or t == f'{ix} < len({args_var})' or t == f'{alen} > {ix}':
-            return present
-        if t == f'{ix} >= {alen}' or t == f'{ix} >= len({args_var})':
-            return not present
-        if t in (f'{ix} != {last_var}', f'{last_var} != {ix}'):
-            return not last
-        if t in (f'{ix} == {last_var}', f'{last_var} == {ix}'):
-            return last
-        if isinstance(e, ast.UnaryOp) and isinstance(e.op, ast.Not):
-            r = cond(e.operand, present, last)
-            return None if r is None else not r
-        return None
 
-    def value_kind(e, present, last):
-        if isinstance(e, ast.IfExp):
-            c = cond(e.test, present, last)
-            if c is None:
-                a, b = value_kind(e.body, present, last), value_kind(e.orelse, present, last)
-                return a if a == b else f'{a} or {b} (depending on {norm(e.test)})'
-            return value_kind(e.body if c else e.orelse, present, last)
-        t = norm(e)
-        if t == f'{args_var}[{ix}]':
-            return 'args[i]'
-        if t == f'{args_var}[{ix}:]':
-            return 'args[i:]'
-        if isinstance(e, ast.Constant) and e.value is None:
-            return 'null'
-        if isinstance(e, ast.List) and not e.elts:
-            return '[]'
-        if t == args_var:
-            return 'the argument list itself (aliased, not a fresh slice)'
-        if t == f'list({args_var}[{ix}:])':
-            return 'args[i:]'
-        return t
+def check_calls_sim(chk):
+    """C04.R / C04.B / C04.F by abstract execution (E6s): a `function` statement is executed, the value it leaves in the globals
+    object is applied to argument lists of every length, and the locals seen by the first evaluation inside the body are compared
+    with the documented binding table."""
+    if getattr(chk, '_c04_sim_done', False):
+        return
+    chk._c04_sim_done = True
+    from .. import stepsim
+    from ..absint import Sym, ADict, AList, RaiseSig
+    mod, func, loop = helper_loop(chk.repo, 'C04.R')
+    it = stepsim.StepInterp(chk.repo, mod, 'C04.R')
+    it.schedule = [True]
 
-    def run_body(stmts, present, last):
-        for s in stmts:
-            if isinstance(s, ast.If):
-                c = cond(s.test, present, last)
-                if c is None:
-                    return None
-                r = run_body(s.body if c else s.orelse, present, last)
-                if r is not None:
-                    return r
-            elif isinstance(s, ast.Assign) and isinstance(s.targets[0], ast.Subscript):
-                return value_kind(s.value, present, last)
-        return 'unbound'
-    want = {(True, False): 'args[i]', (True, True): 'args[i:]', (False, False): 'null', (False, True): '[]'}
-    for (present, last), w in want.items():
-        got = run_body(loop.body, present, last)
-        ctx = ('argument present' if present else 'argument missing') + ', ' + ('the "..." parameter' if last else 'ordinary parameter')
-        if got is None:
-            raise Unrecognised('C04.B', f'binding loop not understood for: {ctx}', mod.rel)
-        if got == w:
-            chk.ok('C04.B', f'{ctx} -> {got}')
+    def fobj(name, args, last, tag):
+        f = {'name': name, 'statements': [{'expr': {'name': 'x', 'expr': Sym('e', f'{tag}.0')}}, {'return': {'expr': Sym('e', f'{tag}.1')}}]}
+        if args is not None:
+            f['args'] = list(args)
+        if last is not None:
+            f['lastArgArray'] = last
+        return f
+
+    def run_model(model, scope, globals_init):
+        locals_ = it.prepare(scope, 50, globals_init)
+        try:
+            it.call_function(func, [stepsim.build(model), it.options, locals_], func)
+        except RaiseSig as sig:
+            return None, f'raises {sig.cls}{sig.args_!r}'
+        return locals_, None
+
+    def call(fv, args):
+        it.events = []
+        arglist = AList(list(args))
+        try:
+            r = it.apply(fv, [arglist, it.options], func)
+        except RaiseSig as sig:
+            return ('raise', sig.cls, sig.args_), arglist
+        return ('ok', r), arglist
+    # ---- C04.R: the function statement
+    host = Sym('host-function')
+    for scope in ('global', 'function'):
+        locals_, err = run_model([{'function': fobj('f', ['a'], None, 'F')}], scope, {'f': host, 'x': Sym('global-x')})
+        g = it.globals_obj.d
+        if err:
+            chk.bad('C04.R', mod, func.name, f'function statement ({scope} scope): {err}', f'executing a function statement {err}')
+            continue
+        fv = g.get('f')
+        if fv is host or fv is None or (locals_ is not None and 'f' in locals_.d):
+            chk.bad('C04.R', mod, func.name, f'function statement in {scope} scope leaves globals[f] = {fv!r}',
+                    'a function statement must bind the function in the GLOBALS object unconditionally (replacing a library / host function or an earlier definition of the same name), '
+                    'also when executed inside a function body')
+            continue
+        res, _al = call(fv, [Sym('arg', 0)])
+        ids = [e[1] for e in it.events]
+        if res[0] == 'ok' and ids == ['F.0', 'F.1']:
+            chk.ok('C04.R', f'function statement ({scope} scope): globals[name] becomes a callable that runs that statement\'s own statement list')
         else:
-            chk.bad('C04.B', mod, '_script_function', f'{ctx} -> {got}', f'with {ctx} the parameter must be bound to {w}; it is bound to {got}', node=loop)
+            chk.bad('C04.R', mod, func.name, f'call of the bound function evaluates {ids} / {res[0]}',
+                    'the callable bound by a function statement must execute the statement list of that function object')
+    # redefinition: the later statement wins
+    locals_, err = run_model([{'function': fobj('f', [], None, 'F1')}, {'function': fobj('f', [], None, 'F2')}], 'global', {})
+    if not err:
+        res, _al = call(it.globals_obj.d.get('f'), [])
+        ids = [e[1] for e in it.events]
+        if ids == ['F2.0', 'F2.1']:
+            chk.ok('C04.R', 'a second function statement of the same name replaces the first')
+        else:
+            chk.bad('C04.R', mod, func.name, f'redefinition evaluates {ids}', 'a later function statement of the same name must replace the earlier definition')
+    # ---- C04.B / C04.F: binding table and frames
+    cases = [(None, None), ([], None), (['a'], None), (['a', 'b'], None), (['a', 'b', 'c'], None), (['a'], True), (['a', 'b'], True), (['a', 'b', 'c'], True),
+             (['a', 'b'], False), (['a'], False)]
+    n_ok = 0
+    reported = set()
+    for params, last in cases:
+        locals_, err = run_model([{'function': fobj('f', params, last, 'B')}], 'global', {'x': Sym('global-x'), 'a': Sym('global-a')})
+        if err:
+            chk.bad('C04.B', mod, func.name, f'function statement {params}: {err}', f'executing a function statement {err}')
+            continue
+        fv = it.globals_obj.d.get('f')
+        frames = []
+        for k in range(0, len(params or []) + 3):
+            args = [Sym('arg', i) for i in range(k)]
+            res, arglist = call(fv, args)
+            desc = f'function f({", ".join(params or [])}{"..." if last else ""}){" [lastArgArray False]" if last is False else ""} called with {k} argument(s)'
+            if res[0] != 'ok':
+                key = ('raise', res[1])
+                if key not in reported:
+                    reported.add(key)
+                    chk.bad('C04.B', mod, '_script_function', f'{desc}: {res[1]}', f'{desc} raises the host exception {res[1]}{res[2]!r}')
+                continue
+            first = next((e for e in it.events if e[1] == 'B.0'), None)
+            if first is None or first[5] is None:
+                if 'noframe' in reported:
+                    continue
+                reported.add('noframe')
+                chk.bad('C04.F', mod, '_script_function', f'{desc}: body runs without a locals frame', 'the body of a script function must run with its own locals dict (assignments inside would otherwise go to globals)')
+                continue
+            snap, frame = first[5], first[6]
+            want = {}
+            for i, p in enumerate(params or []):
+                if last and i == len(params) - 1:
+                    want[p] = ('list', tuple(args[i:]))
+                else:
+                    want[p] = args[i] if i < k else None
+            if snap != want:
+                _missing = object()
+                key = ('bind', frozenset((i < k, bool(last and i == len(params) - 1)) for i, p in enumerate(params or []) if snap.get(p, _missing) != want[p]),
+                       bool(set(snap) - set(want)))
+                if key not in reported:
+                    reported.add(key)
+                    chk.bad('C04.B', mod, '_script_function', f'{desc}: locals {snap!r}',
+                            f'{desc}: the body starts with locals {snap!r}; the binding table dictates {want!r} (missing -> null, "..." -> fresh list of the remaining arguments, '
+                            f'[] when none; surplus arguments ignored; no other names)')
+                continue
+            if last and params and frame.d.get(params[-1]) is arglist:
+                if 'alias' in reported:
+                    continue
+                reported.add('alias')
+                chk.bad('C04.B', mod, '_script_function', f'{desc}: "..." aliases the argument list', 'the "..." parameter must be a fresh list, not the caller\'s argument list itself')
+                continue
+            if any(f is frame for f in frames):
+                chk.bad('C04.F', mod, '_script_function', f'{desc}: locals frame reused', 'every call of a script function must run with a locals dict created for that call')
+                continue
+            frames.append(frame)
+            if it.globals_obj.d.get('x') != Sym('global-x') or 'x' not in frame.d:
+                chk.bad('C04.F', mod, '_script_function', f'{desc}: assignment inside the body reaches globals', 'an assignment inside a function body must go to the call\'s locals, never to globals')
+                continue
+            if any(e[3] != 'same-options' for e in it.events):
+                chk.bad('C04.F', mod, '_script_function', f'{desc}: other options object', 'a script function must run under the options object passed by its caller')
+                continue
+            n_ok += 1
+    if n_ok:
+        chk.ok('C04.B', f'{n_ok} abstract calls (0-3 declared parameters, with / without "...", explicit lastArgArray False, 0 to n+2 arguments): locals at the first statement of the body '
+               f'equal the binding table (args[i] / fresh args[i:] / null / []; surplus ignored)')
+        chk.ok('C04.F', f'{n_ok} abstract calls: each call runs its own statement list with a locals dict created for the call, under the caller\'s options; assignments stay local')
+        for ctx in ('argument present, ordinary parameter -> args[i]', 'argument present, the "..." parameter -> fresh args[i:]', 'argument missing, ordinary parameter -> null',
+                    'argument missing, the "..." parameter -> []', 'explicit lastArgArray False behaves like absent', 'surplus arguments are ignored'):
+            chk.ok('C04.B', ctx)
 
 
 def check_callbacks(chk):
@@ -441,8 +433,8 @@ def check_callbacks(chk):
 
 
 def run(chk):
-    chk.rule('C04.W', 'assignment target by scope (3 abstract cases); enumerated writers of the globals object', floor=6)
-    chk.rule('C04.F', 'fresh locals frame per call; top level and includes run with locals None', floor=4)
+    chk.rule('C04.W', 'assignment target by scope (3 abstract cases, abstract execution); enumerated writers of the globals object', floor=5)
+    chk.rule('C04.F', 'fresh locals frame per call (abstract calls); top level and includes run with locals None', floor=3)
     chk.rule('C04.L', 'lookup order: keywords, locals (membership), globals; functions: locals, globals, built-ins under flag', floor=3)
     chk.rule('C04.I', 'library injection never overwrites a caller-supplied name (membership filter)', floor=1)
     chk.rule('C04.R', 'function statement stores unconditionally a callable bound to its own function object', floor=1)
